@@ -372,6 +372,26 @@ func c02Actions(shard, nshards int, only string, emit func(*C02Line), errs *[]st
 		if json.Unmarshal(data, &tests) != nil {
 			continue
 		}
+		// members that some definition of this file leaves out or sets to null
+		optional := map[string]bool{}
+		all := map[string]bool{}
+		var parsed []map[string]any
+		for _, tc := range tests {
+			var am map[string]any
+			if json.Unmarshal(tc.Action, &am) == nil {
+				parsed = append(parsed, am)
+				for k := range am {
+					all[k] = true
+				}
+			}
+		}
+		for k := range all {
+			for _, am := range parsed {
+				if v, has := am[k]; !has || v == nil {
+					optional[k] = true
+				}
+			}
+		}
 		for ti, tc := range tests {
 			ji++
 			if ji%nshards != shard || tc.ReadError != "" {
@@ -400,13 +420,56 @@ func c02Actions(shard, nshards int, only string, emit func(*C02Line), errs *[]st
 					}
 				}
 			}
-			for vi, action := range variants {
+			// ... and the action as it is in a workspace that lacks one kind of asset altogether (no topics, no users, ...): what
+			// the engine then writes out - references it could not resolve, fall-backs that were not there - must read back
+			type av struct{ action, drop string }
+			avs := []av{}
+			for _, v := range variants {
+				avs = append(avs, av{v, ""})
+			}
+			drops := []string{"topics", "users", "channels", "groups", "fields", "labels", "globals", "templates", "classifiers", "optins"}
+			for _, drop := range drops {
+				avs = append(avs, av{string(tc.Action), drop})
+			}
+			// ... and with each member that other definitions of the same action leave out set to null (a ticket with an assignee
+			// but no topic, a message without text but with attachments ...), in the full workspace and in every reduced one
+			var am map[string]any
+			if json.Unmarshal(tc.Action, &am) == nil {
+				keys := make([]string, 0, len(am))
+				for k := range am {
+					keys = append(keys, k)
+				}
+				sort.Strings(keys)
+				for _, k := range keys {
+					if am[k] == nil || !optional[k] {
+						continue
+					}
+					cp := map[string]any{}
+					for kk, vv := range am {
+						cp[kk] = vv
+					}
+					cp[k] = nil
+					nulled := string(mustJSON(cp))
+					avs = append(avs, av{nulled, ""})
+					for _, drop := range drops {
+						avs = append(avs, av{nulled, drop})
+					}
+				}
+			}
+			for vi, avv := range avs {
+				action := avv.action
 				src := fmt.Sprintf("%s/v%d", base, vi)
 				if only != "" && src != only {
 					continue
 				}
 				var a map[string]any
 				json.Unmarshal(assetsJSON, &a)
+				if avv.drop != "" {
+					if _, has := a[avv.drop]; !has {
+						continue
+					}
+					a[avv.drop] = []any{}
+				}
 				fl := a["flows"].([]any)[flowIndex].(map[string]any)
 				nodes := fl["nodes"].([]any)
 				n0 := nodes[0].(map[string]any)
